@@ -93,6 +93,20 @@ let after_stop ?(heads_too = true) ops (ires : (int * int) list) : string option
     | _ -> None
   in go 0 ops ires false
 
+(* extraction cross-check: with ORACLE_DUMP=<file> the numbers the extracted model computed for
+   every case are appended to that file; bin/coqreplay_c23.py recomputes them inside Coq *)
+let dump_chan = match Sys.getenv_opt "ORACLE_DUMP" with
+  | Some p when p <> "" -> Some (open_out_gen [Open_append; Open_creat] 0o644 p)
+  | _ -> None
+let dump (id : string) (nums : int list) : unit =
+  match dump_chan with
+  | None -> ()
+  | Some ch -> output_string ch (id ^ " " ^ String.concat " " (List.map string_of_int nums) ^ "\n")
+let flat2 (l : (int * int) list) : int list = List.concat_map (fun (a, b) -> [a; b]) l
+let flat3 l = List.concat_map (fun (i, (a, b)) -> [int_of_n i; int_of_n a; int_of_n b]) l
+
+let diff_all_d id mres ires mobs iobs = dump id (flat2 mres @ flat2 mobs); diff_all mres ires mobs iobs
+
 let first_some l = List.fold_left (fun acc f -> match acc with Some _ -> acc | None -> f ()) None l
 
 let verdict ?(known = None) prop diff =
@@ -127,6 +141,7 @@ let f _id vs =
       (fun () -> if all_next ops then check_drain "static" (List.map ok items) ires else None);
       (fun () -> if List.for_all (fun o -> o <= 2) ops then coherence ops ires else None);
       (fun () -> after_stop ops ires) ] in
+    dump _id (flat2 m);
     verdict prop (first_diff m ires)
   (* 2 concat *)
   | [I "2"; ins; ops; res; obs] ->
@@ -142,7 +157,7 @@ let f _id vs =
       (fun () -> if all_next ops && clean a && not (clean b)
         then check_prefix "concat" (List.map ok (items_of a @ prefix_items b) @ [er (Option.get (first_err b))]) ires else None);
       (fun () -> after_stop ops ires) ] in
-    verdict prop (diff_all (List.map wire m) ires (model_obs (concat_obs st)) (impl_obs obs))
+    verdict prop (diff_all_d _id (List.map wire m) ires (model_obs (concat_obs st)) (impl_obs obs))
   (* 3 merge *)
   | [I "3"; ins; ops; res; obs] ->
     let ins = intss ins and ops = ints ops and ires = impl_res res in
@@ -153,7 +168,7 @@ let f _id vs =
     let prop = first_some [
       (fun () -> if all_next ops && clean a && clean b && is_sorted (items_of a) && is_sorted (items_of b)
         then check_drain "merge of sorted inputs" (List.map ok (merge_spec (items_of a) (items_of b))) ires else None) ] in
-    let diff = diff_all mw ires (model_obs (merge_obs st)) (impl_obs obs) in
+    let diff = diff_all_d _id mw ires (model_obs (merge_obs st)) (impl_obs obs) in
     let known = match after_stop ops ires with
       | Some t when diff = None -> Some ("merge_yields_after_stop", t)
       | _ -> None in
@@ -185,7 +200,7 @@ let f _id vs =
         then check_prefix name (List.map ok (passing (prefix_items s)) @ [er (Option.get (first_err s))]) ires else None);
       (fun () -> if k = "5" then coherence ops ires else None);
       (fun () -> after_stop ops ires) ] in
-    verdict prop (diff_all (List.map wire m) ires mobs (impl_obs obs))
+    verdict prop (diff_all_d _id (List.map wire m) ires mobs (impl_obs obs))
   (* 6 filtered *)
   | [I "6"; ins; tabs; ops; res; obs] ->
     let s = List.hd (intss ins) and tabs = intss tabs and ops = ints ops and ires = impl_res res in
@@ -198,7 +213,7 @@ let f _id vs =
         then check_prefix "filtered" (List.map ok (passing (prefix_items s)) @ [er (Option.get (first_err s))]) ires else None);
       (fun () -> coherence ops ires);
       (fun () -> after_stop ops ires) ] in
-    verdict prop (diff_all (List.map wire m) ires (model_obs (one_obs st)) (impl_obs obs))
+    verdict prop (diff_all_d _id (List.map wire m) ires (model_obs (one_obs st)) (impl_obs obs))
   (* 7 validate *)
   | [I "7"; ins; tabs; nilv; ops; res; obs] ->
     let s = List.hd (intss ins) and tabs = intss tabs and ops = ints ops and ires = impl_res res in
@@ -213,7 +228,7 @@ let f _id vs =
         then check_prefix "validate" (spec (prefix_items s) @ [er (Option.get (first_err s))]) ires else None);
       (fun () -> coherence ops ires);
       (fun () -> after_stop ops ires) ] in
-    verdict prop (diff_all (List.map wire m) ires (model_obs (one_obs st)) (impl_obs obs))
+    verdict prop (diff_all_d _id (List.map wire m) ires (model_obs (one_obs st)) (impl_obs obs))
   (* 8 mapped *)
   | [I "8"; ins; p; ops; res; obs] ->
     let s = List.hd (intss ins) and p = as_int p and ops = ints ops and ires = impl_res res in
@@ -226,7 +241,7 @@ let f _id vs =
         then check_prefix "mapper" (spec (prefix_items s) @ [er (Option.get (first_err s))]) ires else None);
       (fun () -> coherence ops ires);
       (fun () -> after_stop ops ires) ] in
-    verdict prop (diff_all (List.map wire m) ires (model_obs (one_obs st)) (impl_obs obs))
+    verdict prop (diff_all_d _id (List.map wire m) ires (model_obs (one_obs st)) (impl_obs obs))
   (* 9 skipto *)
   | [I "9"; ins; target; ops; skres; res; obs] ->
     let s = List.hd (intss ins) and target = as_int target and ops = ints ops and ires = impl_res res in
@@ -241,7 +256,7 @@ let f _id vs =
         if all_next ops then check_drain "skip_to" (List.map ok (drop items)) ires
         else if isk <> (0, 0) then Some "skip_to returned an error on an error-free iterator" else None
       else None in
-    verdict prop (diff_all (wire r0 :: List.map wire m) (isk :: ires) [ (fun (a, b) -> (int_of_n a, int_of_n b)) (src_obs st) ] (impl_obs obs))
+    verdict prop (diff_all_d _id (wire r0 :: List.map wire m) (isk :: ires) [ (fun (a, b) -> (int_of_n a, int_of_n b)) (src_obs st) ] (impl_obs obs))
   (* 10 combined *)
   | [I "10"; ins; ops; res; obs] ->
     let ins = intss ins and ops = ints ops and ires = impl_res res in
@@ -251,7 +266,7 @@ let f _id vs =
         then check_drain "combined" (List.map ok (List.concat_map items_of ins)) ires else None);
       (fun () -> coherence ops ires);
       (fun () -> after_stop ops ires) ] in
-    verdict prop (diff_all (List.map wire m) ires (model_obs (comb_obs st)) (impl_obs obs))
+    verdict prop (diff_all_d _id (List.map wire m) ires (model_obs (comb_obs st)) (impl_obs obs))
   (* 11 ordered combined *)
   | [I "11"; ins; ops; res; obs] ->
     let ins = intss ins and ops = ints ops and ires = impl_res res in
@@ -274,12 +289,14 @@ let f _id vs =
       (* on unsorted inputs Head may show an item whose Next is the "not ascending" error *)
       (fun () -> if List.for_all (fun s -> is_sorted (keys (items_of s))) ins then coherence ~until_stop:true ops ires else None);
       (fun () -> after_stop ~heads_too:false ops ires) ] in
+    dump _id (flat2 (List.map wire m) @ flat3 (oc_obs st));
     verdict prop (diff_all (List.map wire m) ires (sorted_obs (oc_obs st)) (impl_obs obs))
   (* 12 error iterator *)
   | [I "12"; e; ops; res] ->
     let e = as_int e and ops = ints ops and ires = impl_res res in
     let prop = if List.for_all2 (fun o r -> o = 2 || r = er e) ops ires then None else Some "error iterator" in
     let (m, _) = run_std error_next error_next (fun x -> x) ops (n_of_int e) in
+    dump _id (flat2 (List.map wire m));
     verdict prop (first_diff (List.map wire m) ires)
   (* 13 from channel *)
   | [I "13"; msgs; ops; res; obs] ->
@@ -298,6 +315,7 @@ let f _id vs =
       (* an error message of the channel is consumed by whichever call receives it *)
       (fun () -> if no_err_msg then coherence ops ires else None);
       (fun () -> after_stop ops ires) ] in
+    dump _id (flat2 (List.map wire m) @ flat3 (fc_obs st));
     verdict prop (diff_all (List.map wire m) ires (sorted_obs (fc_obs st)) (impl_obs obs))
   (* 14 to channel *)
   | [I "14"; ins; res; obs] ->
@@ -305,6 +323,7 @@ let f _id vs =
     let m = List.map wire (to_channel (List.map ev_of_int s)) in
     let prop = if clean s && ires <> List.map ok (items_of s) then Some "to channel: not the items of the iterator" else None in
     ignore obs;
+    dump _id (flat2 m);
     verdict prop (first_diff m ires)
   (* 15 streams *)
   | [I "15"; msgss; sops; res; obs] ->
@@ -321,6 +340,7 @@ let f _id vs =
         | 5 :: ps -> SSlice (List.map nat_of_int ps) | [6; p] -> SStop (nat_of_int p) | _ -> SStopAll) (intss sops) in
     let (m, st) = streams_run ops { ss_active = streams; ss_gone = [] } in
     let mw = List.map (fun o -> let (v, e) = wire o.so_res in (v, e, List.map int_of_n o.so_list)) m in
+    dump _id (List.concat_map (fun (v, e, l) -> v :: e :: List.length l :: l) mw @ flat3 (streams_obs st));
     let iw = List.map (fun p -> match as_list p with [a; b; l] -> (as_int a, as_int b, ints l) | _ -> (-1, -1, [])) (as_list res) in
     let rec fd k a b = match a, b with
       | [], [] -> None
@@ -347,57 +367,99 @@ let f _id vs =
       if ok then "OK" else "DIFF fan-in (cancelled): per-channel order not preserved"
     end else begin
       let total = List.fold_left (+) 0 sizes in
+      dump _id [if is_interleaving chans out then 1 else 0];
       let perm = List.length out = total && List.sort compare out = List.sort compare (List.concat chans) in
       if not perm then "PROP fan-in: the output is not a permutation of the messages of the input channels"
       else if is_interleaving chans out then "OK"
       else "DIFF fan-in: the output is not an interleaving of the channels (per-channel order)"
     end
   (* 20 shared *)
-  | [I "20"; ins; limit; sops; res; obs] ->
-    let scr = List.map (fun s -> if s = [-1] then None else Some (List.map ev_of_int s)) (intss ins) in
+  | [I "20"; ins; limit; sops; res; obs; trig] ->
+    let raw_scripts = intss ins in
+    let scr = List.map (fun s -> if s = [-1] then None else Some (List.map ev_of_int s)) raw_scripts in
+    let nscripts = List.length scr in
     let limit = as_int limit in
     let z_of_int i = if i = 0 then Z0 else Zpos (pos_of_int i) in
     let bufsz = nat_of_int 100 in
-    let ops = List.map (fun o -> match o with
-        | [0; k; h] -> DOpen (n_of_int k, h = 1) | [1; h; c] -> DNext (nat_of_int h, c = 1)
-        | [2; h; c] -> DHead (nat_of_int h, c = 1) | [3; h] -> DStop (nat_of_int h) | _ -> DExpireAll) (intss sops) in
+    let iops = intss sops in
     let ires = impl_res res in
-    (* step by step, remembering which script every created underlying iterator got *)
+    let trig = (match ints trig with [a; b] -> Some (a, b) | _ -> None) in
+    (* step by step, remembering which script every created underlying iterator got.
+       Context mode 2 (the context that the underlying iterator of script [trig] cancels from
+       inside its Next) is composed from model steps: once the trigger has fired the call is a
+       cancelled call; otherwise the call's fetch is the one of a Head step, and if that fetch
+       passed the trigger position the call answers context.Canceled without advancing. *)
     let d = ref (ds_init (z_of_int limit) scr) in
-    let created = ref [] (* in creation order: (`Inst i | `Byp b, script) *) in
+    let created = ref [] (* in creation order: (`Inst i | `Byp b, script, script index) *) in
+    let fired = ref false in
+    let update_fired () =
+      match trig with
+      | None -> ()
+      | Some (ti, tp) ->
+        List.iter (fun (w, s, si) ->
+            if si = ti then begin
+              let src = (match w with
+                  | `Inst i -> (List.nth (!d).ds_inst i).sy_sh.sh_inner
+                  | `Byp b -> List.nth (!d).ds_bypass b) in
+              let consumed = List.length s - List.length src.evs in
+              let is_item = (match List.nth_opt s tp with Some (Item _) -> true | _ -> false) in
+              if is_item && consumed >= tp + 1 then fired := true
+            end) !created in
+    let step o =
+      let before = !d in
+      let (r, d1) = ds_step bufsz o before in
+      d := d1;
+      (match o, r with
+       | DOpen _, R (Some k, None) ->
+         let taken = (match before.ds_scripts with Some s :: _ -> s | _ -> []) in
+         let si = nscripts - List.length before.ds_scripts in
+         (match int_of_n k with
+          | 0 -> created := !created @ [(`Inst (List.length before.ds_inst), taken, si)]
+          | 2 -> created := !created @ [(`Byp (List.length before.ds_bypass), taken, si)]
+          | _ -> ())
+       | _ -> ());
+      update_fired ();
+      r in
+    let is_shared h = (match List.nth_opt (!d).ds_handles h with Some (HShared _) -> true | _ -> false) in
     let mres = List.map (fun o ->
-        let before = !d in
-        let (r, d1) = ds_step bufsz o before in
-        d := d1;
-        (match o, r with
-         | DOpen _, R (Some k, None) ->
-           let taken = (match before.ds_scripts with Some s :: _ -> s | _ -> []) in
-           (match int_of_n k with
-            | 0 -> created := (`Inst (List.length before.ds_inst), taken) :: !created
-            | 2 -> created := (`Byp (List.length before.ds_bypass), taken) :: !created
-            | _ -> ())
-         | _ -> ());
-        wire r) ops in
-    let created = List.rev !created in
+        let r = (match o with
+            | [0; k; h] -> step (DOpen (n_of_int k, h = 1))
+            | [1; h; 2] when !fired -> step (DNext (nat_of_int h, true))
+            | [2; h; 2] when !fired -> step (DHead (nat_of_int h, true))
+            | [1; h; 2] when is_shared h ->
+              let saved = !d in
+              let r0 = step (DHead (nat_of_int h, false)) in
+              if !fired then (match r0 with R (None, None) -> r0 | _ -> rErr eCancel)
+              else begin d := saved; step (DNext (nat_of_int h, false)) end
+            | [2; h; 2] when is_shared h ->
+              let r0 = step (DHead (nat_of_int h, false)) in
+              if !fired then (match r0 with R (None, None) -> r0 | _ -> rErr eCancel) else r0
+            | [1; h; c] -> step (DNext (nat_of_int h, c = 1))
+            | [2; h; c] -> step (DHead (nat_of_int h, c = 1))
+            | [3; h] -> step (DStop (nat_of_int h))
+            | _ -> step DExpireAll) in
+        wire r) iops in
+    let created = !created in
     let (io, bo) = ds_obs !d in
     let io = model_obs io and bo = model_obs bo in
-    let mobs = List.map (fun (w, _) -> match w with `Inst i -> List.nth io i | `Byp b -> List.nth bo b) created in
-    (* the property, on the implementation's results: every handle sees the ideal sequence of the
-       script of its underlying iterator *)
+    let mobs = List.map (fun (w, _, _) -> match w with `Inst i -> List.nth io i | `Byp b -> List.nth bo b) created in
+    dump _id (flat2 mres @ flat2 io @ flat2 bo);
+    (* the property, on the implementation's results: every handle of a shared iterator that
+       reads with a live context sees the ideal sequence of the script of its underlying
+       iterator, whatever the other handles (and their contexts) do *)
     let handles = Array.of_list (!d).ds_handles in
-    (* a bypass handle is the inner reader's own iterator: compared with the model only *)
     let script_of h = match handles.(h) with
-      | HShared (i, _) -> Some (List.assoc (`Inst (int_of_nat i)) created)
+      | HShared (i, _) ->
+        let (_, s, _) = List.find (fun (w, _, _) -> w = `Inst (int_of_nat i)) created in Some s
       | HBypass _ -> None in
     let pos = Hashtbl.create 8 and stopped = Hashtbl.create 8 in
     let prop = ref None in
     let nh = ref 0 (* handles that exist so far *) in
     List.iteri (fun k (o, r) ->
         match o with
-        | DOpen _ -> if fst r <> 0 then incr nh
-        | DStop h -> if int_of_nat h < !nh then Hashtbl.replace stopped (int_of_nat h) true
-        | DNext (h, false) when int_of_nat h < !nh && !prop = None && script_of (int_of_nat h) <> None ->
-          let h = int_of_nat h in
+        | 0 :: _ -> if fst r <> 0 then incr nh
+        | [3; h] -> if h < !nh then Hashtbl.replace stopped h true
+        | [1; h; 0] when h < !nh && !prop = None && script_of h <> None ->
           let scr = Option.get (script_of h) in
           if Hashtbl.mem stopped h then begin
             if r <> er 0 then prop := Some (Printf.sprintf "op %d: Next on a stopped clone returned %d/%d" k (fst r) (snd r))
@@ -408,7 +470,10 @@ let f _id vs =
               prop := Some (Printf.sprintf "op %d: handle %d read #%d returned %d/%d, the underlying sequence has %d/%d" k h j (fst r) (snd r) (fst want) (snd want))
             else if fst r <> 0 then Hashtbl.replace pos h (j + 1)
           end
-        | _ -> ()) (List.combine ops (if List.length ires = List.length ops then ires else List.map (fun _ -> (-1, -1)) ops));
+        | [1; h; 2] when h < !nh && script_of h <> None ->
+          (* a read that succeeded under the trigger context advanced the clone as well *)
+          if fst r <> 0 then Hashtbl.replace pos h ((try Hashtbl.find pos h with Not_found -> 0) + 1)
+        | _ -> ()) (List.combine iops (if List.length ires = List.length iops then ires else List.map (fun _ -> (-1, -1)) iops));
     verdict !prop (diff_all mres ires mobs (impl_obs obs))
   (* 21 free-running clones: decided by the driver *)
   | I "21" :: _ -> "OK"
